@@ -881,6 +881,8 @@ package middleware
 //@ ensures [C03:path] loc() == "path" ==> calls(RV) == 1 && arg(RV,0,1) == boxas(routeParams, "RouteParams") && arg(RV,0,2) == target
 //@ ensures [C03:bind] loc() == "query" || loc() == "header" || loc() == "path" ==> (ret(RV,0,3) != nil ==> result == ret(RV,0,3) && calls(BV) == 0) && (ret(RV,0,3) == nil && ret(RV,0,1) ==> result == nil && calls(BV) == 0) && (ret(RV,0,3) == nil && !ret(RV,0,1) ==> calls(BV) == 1 && arg(BV,0,0) == p && arg(BV,0,1) == ret(RV,0,0) && arg(BV,0,2) == ret(RV,0,2) && arg(BV,0,3) == target && result == ret(BV,0,0))
 //@ ensures [C03:formtype] loc() == "formData" ==> calls(CT) == 1 && arg(CT,0,0) == old(request.Header) && (ret(CT,0,2) != nil || (ret(CT,0,0) != "multipart/form-data" && ret(CT,0,0) != "application/x-www-form-urlencoded") ==> result != nil && calls(RV) == 0 && calls(BV) == 0)
+//@ ensures [C03:formsource] loc() == "formData" && calls(RV) == 1 ==> arg(RV,0,2) == target && (before(RV, request.MultipartForm) != nil ==> arg(RV,0,1) == boxas(before(RV, request.MultipartForm.Value), "runtime.Values")) && (before(RV, request.MultipartForm) == nil ==> arg(RV,0,1) == boxas(before(RV, request.PostForm), "runtime.Values"))
+//@ ensures [C03:formbind] loc() == "formData" && calls(RV) == 1 ==> (ret(RV,0,3) != nil ==> result == ret(RV,0,3) && calls(BV) == 0) && (ret(RV,0,3) == nil && ret(RV,0,1) ==> result == nil && calls(BV) == 0) && (ret(RV,0,3) == nil && !ret(RV,0,1) ==> calls(BV) == 1 && arg(BV,0,1) == ret(RV,0,0) && arg(BV,0,2) == ret(RV,0,2) && arg(BV,0,3) == target && result == ret(BV,0,0))
 //@ ensures [C03:unknownloc] loc() != "query" && loc() != "header" && loc() != "path" && loc() != "formData" && loc() != "body" ==> result != nil && calls(RV) == 0 && calls(BV) == 0 && calls(CO) == 0
 //@ ensures [C03:body] loc() == "body" ==> calls(HB) == 1 && arg(HB,0,0) == request && calls(RV) == 0 && calls(BV) == 0 && (!ret(HB,0,0) ==> result == nil && calls(CO) == 0) && (ret(HB,0,0) ==> calls(CO) == 1 && recv(CO,0) == consumer && (ret(CO,0,0) == nil ==> result == nil))
 
